@@ -115,8 +115,6 @@ class CategoricalBox:
 
     @levels.setter
     def levels(self, value):
-        if value is not None and set(value) != set(self.data):  # pragma: no cover
-            raise ValueError("The levels beign assigned and the levels in the data differ")
         self._levels = value
 
 
